@@ -72,3 +72,39 @@ theorem fd_conj (cj : K →+* K) (t : Table) (n : Nat) (hn : 2 ≤ n) (dx : K) (
   split_ifs <;> simp [map_intCast]
 
 end OdlModel.Adjoint
+
+/-! ### Gradient / Divergence as block column / row of partial derivatives -/
+
+namespace OdlModel.Adjoint
+open Finset OdlModel.FiniteDiff OdlModel.Gen.FiniteDiff
+
+theorem shProd_split : ∀ (sh : List Nat) (a : Nat), a < sh.length →
+    shProd sh = shProd (sh.take a) * (sh.getD a 0 * shProd (sh.drop (a + 1)))
+  | [], a, h => by simp at h
+  | n :: sh, 0, _ => by simp [shProd]
+  | n :: sh, a + 1, h => by
+    have ih := shProd_split sh a (by simpa using h)
+    simp only [List.take_succ_cons, shProd, List.getD_cons_succ, List.drop_succ_cons]
+    rw [ih]; ring
+
+section
+variable {K : Type} [Field K] [DecidableEq K]
+
+theorem gradTree_shape (S V : Space K) (sh : List Nat) (me : Method) (pa : Pad)
+    (dx : Nat → K) (d : Nat) :
+    (gradTree S V sh me pa dx d).dom = S ∧ (gradTree S V sh me pa dx d).ran = V ∧
+      (gradTree S V sh me pa dx d).isBlock = true := by
+  induction d with
+  | zero => exact ⟨rfl, rfl, rfl⟩
+  | succ a ih => exact ⟨ih.1, ih.2.1, rfl⟩
+
+theorem divTree_shape (V S : Space K) (sh : List Nat) (me : Method) (pa : Pad)
+    (dx : Nat → K) (d : Nat) :
+    (divTree V S sh me pa dx d).dom = V ∧ (divTree V S sh me pa dx d).ran = S ∧
+      (divTree V S sh me pa dx d).isBlock = true := by
+  induction d with
+  | zero => exact ⟨rfl, rfl, rfl⟩
+  | succ a ih => exact ⟨ih.1, ih.2.1, rfl⟩
+end
+
+end OdlModel.Adjoint
